@@ -79,13 +79,14 @@ theorem frame_shows_gen (dec : String → G) (cw : String → Nat) (hsp : cw "20
     ∃ e', runOps e (opsOfToks dec cw (renderFrame cw (mkFrame caps s fi)).2) = .ok e' ∧
       Linked dec cw (stepH cw caps s fi) e' rows cols ∧
       Agree cw caps (stepH cw caps s fi).t (stepH cw caps s fi).last ∧
-      ShowsK caps dec cw fi e' ∧ EFrame e e' := by
+      ShowsK caps dec cw fi e' ∧ EFrame e e' ∧
+      (stepH cw caps s fi).t.grid = Expected.expected cw caps fi.next := by
   obtain ⟨r1, a1, g1, b1⟩ := C01Display.frame_step cw caps hsp rows cols s fi hready hag hok
   have h59 : 59 ∉ dec "" := by rw [hemp]; simp
   have hvoc := frame_ok_anyCaps dec cw (mkFrame caps s fi) hul (CapsOkU.ew (caps := caps)) (CapsOkU.sy (caps := caps))
     hsp (by rw [hd]; simp) h59 hlp hok2.1 hok2.2
   obtain ⟨e', hr, hs', hf⟩ := run_sim_frame cw _ s.t e hsim b1 hvoc
-  refine ⟨e', hr, ⟨r1, hcur, hs'⟩, a1, ⟨?_, ?_⟩, hf⟩
+  refine ⟨e', hr, ⟨r1, hcur, hs'⟩, a1, ⟨?_, ?_⟩, hf, g1⟩
   · have := hs'.grid
     rw [show (run cw s.t (renderFrame cw (mkFrame caps s fi)).2).grid = Expected.expected cw caps fi.next from g1] at this
     exact this
@@ -120,18 +121,20 @@ theorem frame_shows_genC (dec : String → G) (cw : String → Nat) (hsp : cw "2
     ∃ e', runOps e (opsOfToks dec cw (renderFrameC cw (mkFrame caps s fi)).2) = .ok e' ∧
       Linked dec cw (stepHC cw caps s fi) e' rows cols ∧
       Agree cw caps (stepHC cw caps s fi).t (stepHC cw caps s fi).last ∧
-      ShowsCK caps dec cw fi e' ∧ EFrame e e' := by
+      ShowsCK caps dec cw fi e' ∧ EFrame e e' ∧
+      (stepHC cw caps s fi).t.grid = Expected.expectedC cw caps fi.next := by
   have htoks : (renderFrameC cw (mkFrame caps s fi)).2 = (renderFrame cw (mkFrame caps s (clipIn cw fi))).2 := by
     rw [Lemmas.RenderClip.renderFrameC_eq]; rfl
   rw [htoks, stepHC_eq]
   rw [stepHC_eq] at hcur
-  obtain ⟨e', hr, hl, ag, sh, hf⟩ := frame_shows_gen dec cw hsp hd hemp hlp rows cols s e (clipIn cw fi) hready hsim hag
+  obtain ⟨e', hr, hl, ag, sh, hf, hg⟩ := frame_shows_gen dec cw hsp hd hemp hlp rows cols s e (clipIn cw fi) hready hsim hag
     (clipIn_ok cw caps hsp rows cols fi hok) (clipIn_emuOk dec cw hsp hd fi hok2) (clipIn_ulOk caps cw fi hul) hcur
-  refine ⟨e', hr, hl, ag, ?_, hf⟩
-  unfold ShowsCK
-  unfold ShowsK at sh
-  rw [Lemmas.RenderClip.expectedC_eq]
-  exact ⟨sh.1, sh.2⟩
+  refine ⟨e', hr, hl, ag, ?_, hf, ?_⟩
+  · unfold ShowsCK
+    unfold ShowsK at sh
+    rw [Lemmas.RenderClip.expectedC_eq]
+    exact ⟨sh.1, sh.2⟩
+  · rw [Lemmas.RenderClip.expectedC_eq]; exact hg
 
 /-! ### the invariants: after a frame / after a resize, on whichever screen -/
 
@@ -166,14 +169,14 @@ theorem frame_any (dec : String → G) (cw : String → Nat) (hsp : cw "20" = 1)
     (hok : FrameInOkC cw caps rows cols fi) (hok2 : EmuFrameOk dec cw fi) (hul : UlOk caps fi) :
     ∃ e', runOps e (opsOfToks dec cw (renderFrameC cw (mkFrame caps s fi)).2) = .ok e' ∧
       LinkedF caps dec cw (stepHC cw caps s fi) e' rows cols ∧ ShowsCK caps dec cw fi e' ∧
-      e'.mode.smcup = e.mode.smcup := by
+      e'.mode.smcup = e.mode.smcup ∧ (stepHC cw caps s fi).t.grid = Expected.expectedC cw caps fi.next := by
   have hcur : CursorAs (stepHC cw caps s fi).t fi.cursor := by
     rw [stepHC_eq]
     refine C01.cursor_as_requested cw cw (mkFrame caps s (clipIn cw fi)) s.t ?_ hl.linked.cursor
     rw [hl.linked.ready.trows, hl.linked.ready.tcols]; exact hok.2.2.2
-  obtain ⟨e', hr, l1, a1, sh, hf⟩ := frame_shows_genC dec cw hsp hd hemp hlp rows cols s e fi hl.linked.ready hl.linked.sim
+  obtain ⟨e', hr, l1, a1, sh, hf, hg⟩ := frame_shows_genC dec cw hsp hd hemp hlp rows cols s e fi hl.linked.ready hl.linked.sim
     (fun _ => hl.agree) hok hok2 hul hcur
-  exact ⟨e', hr, ⟨l1, a1⟩, sh, hf.smcup⟩
+  exact ⟨e', hr, ⟨l1, a1⟩, sh, hf.smcup, hg⟩
 
 /-- The REFRESH frame after a resize: needs neither the previous cursor position nor anything about
     the grid. -/
@@ -183,7 +186,7 @@ theorem frame_after_resize_any (dec : String → G) (cw : String → Nat) (hsp :
     (hok : FrameInOkC cw caps rows cols fi) (hok2 : EmuFrameOk dec cw fi) (hul : UlOk caps fi) :
     ∃ e', runOps e (opsOfToks dec cw (renderFrameC cw (mkFrame caps s fi)).2) = .ok e' ∧
       LinkedF caps dec cw (stepHC cw caps s fi) e' rows cols ∧ ShowsCK caps dec cw fi e' ∧
-      e'.mode.smcup = e.mode.smcup := by
+      e'.mode.smcup = e.mode.smcup ∧ (stepHC cw caps s fi).t.grid = Expected.expectedC cw caps fi.next := by
   have hokc := clipIn_ok cw caps hsp rows cols fi hok
   have dm := hl.sim.dim
   obtain ⟨c, cs, ns, hn⟩ : ∃ c cs ns, (clipIn cw fi).next = (c :: cs) :: ns := by
@@ -209,9 +212,9 @@ theorem frame_after_resize_any (dec : String → G) (cw : String → Nat) (hsp :
     rw [stepHC_eq]
     refine Lemmas.RenderCursor.cursor_nonempty cw cw (mkFrame caps s (clipIn cw fi)) s.t ?_ hne hl.vis
     rw [hl.ready.trows, hl.ready.tcols]; exact hok.2.2.2
-  obtain ⟨e', hr, l1, a1, sh, hf⟩ := frame_shows_genC dec cw hsp hd hemp hlp rows cols s e fi hl.ready hl.sim
+  obtain ⟨e', hr, l1, a1, sh, hf, hg⟩ := frame_shows_genC dec cw hsp hd hemp hlp rows cols s e fi hl.ready hl.sim
     (fun h => by rw [hrf] at h; cases h) hok hok2 hul hcur
-  exact ⟨e', hr, ⟨l1, a1⟩, sh, hf.smcup⟩
+  exact ⟨e', hr, ⟨l1, a1⟩, sh, hf.smcup, hg⟩
 
 /-! ### the resize, on whichever screen -/
 
@@ -373,13 +376,14 @@ theorem frames_any (dec : String → G) (cw : String → Nat) (hsp : cw "20" = 1
       (∀ fi ∈ fis, (FrameInOkC cw caps rows cols fi ∧ EmuFrameOk dec cw fi) ∧ UlOk caps fi) →
       ∃ e', runFramesCK caps dec cw s e fis = .ok e' ∧ LinkedF caps dec cw (fis.foldl (stepHC cw caps) s) e' rows cols ∧
         e'.mode.smcup = e.mode.smcup ∧
-        ∀ fi, fis.getLast? = some fi → ShowsCK caps dec cw fi e' := by
+        ∀ fi, fis.getLast? = some fi → ShowsCK caps dec cw fi e' ∧
+          (fis.foldl (stepHC cw caps) s).t.grid = Expected.expectedC cw caps fi.next := by
   intro fis
   induction fis with
   | nil => intro s e hl _; exact ⟨e, rfl, hl, rfl, fun fi h => by simp at h⟩
   | cons a rest ih =>
     intro s e hl hok
-    obtain ⟨e1, hr1, hl1, sh1, m1⟩ := frame_any dec cw hsp hd hemp hlp rows cols s e a hl (hok a (by simp)).1.1 (hok a (by simp)).1.2
+    obtain ⟨e1, hr1, hl1, sh1, m1, g1⟩ := frame_any dec cw hsp hd hemp hlp rows cols s e a hl (hok a (by simp)).1.1 (hok a (by simp)).1.2
       (hok a (by simp)).2
     obtain ⟨e2, hr2, hl2, m2, sh2⟩ := ih (stepHC cw caps s a) e1 hl1 (fun fi h => hok fi (by simp [h]))
     refine ⟨e2, by simp only [runFramesCK, hr1, bind, Except.bind]; exact hr2, hl2, by rw [m2, m1], ?_⟩
@@ -390,7 +394,7 @@ theorem frames_any (dec : String → G) (cw : String → Nat) (hsp : cw "20" = 1
       subst hlast
       simp only [runFramesCK] at hr2
       cases hr2
-      exact sh1
+      exact ⟨sh1, g1⟩
     | cons b rest' =>
       rw [List.getLast?_cons_cons] at hlast
       exact sh2 fi hlast
@@ -416,7 +420,7 @@ theorem seg_any (dec : String → G) (cw : String → Nat) (hsp : cw "20" = 1) (
   | cons a rest =>
     have ha : a.refresh = true := hhead a (by rw [hf]; rfl)
     have hoka := hfr a (by rw [hf]; simp)
-    obtain ⟨e2, hr2, hl2, sh2, m2⟩ := frame_after_resize_any dec cw hsp hd hemp hlp sg.rows sg.cols _ e1 a lr ha hoka.1 hoka.2
+    obtain ⟨e2, hr2, hl2, sh2, m2, _⟩ := frame_after_resize_any dec cw hsp hd hemp hlp sg.rows sg.cols _ e1 a lr ha hoka.1 hoka.2
       (hul a (by rw [hf]; simp))
     obtain ⟨e3, hr3, hl3, m3, sh3⟩ := frames_any dec cw hsp hd hemp hlp sg.rows sg.cols rest _ e2 hl2
       (fun fi h => ⟨hfr fi (by rw [hf]; simp [h]), hul fi (by rw [hf]; simp [h])⟩)
@@ -432,7 +436,7 @@ theorem seg_any (dec : String → G) (cw : String → Nat) (hsp : cw "20" = 1) (
         exact sh2
       | cons b rest' =>
         rw [List.getLast?_cons_cons] at hlast
-        exact sh3 fi hlast
+        exact (sh3 fi hlast).1
 
 theorem shows_across_resizes_aux (dec : String → G) (cw : String → Nat) (hsp : cw "20" = 1) (hd : dec "20" = [32])
     (hemp : dec "" = []) (hlp : LpOk dec) :
